@@ -15,15 +15,26 @@ def base_sig(seed=0, n=256, fs=64):
 
 
 def outcome(fn):
-    try:
-        with warnings.catch_warnings():
-            warnings.simplefilter('ignore')
-            fn()
-        return 0
-    except ValueError:
-        return 1
-    except Exception:
-        return 2
+    """0 = returns, 1 = ValueError, 2 = another exception.  Entry points that start a process pool are guarded: a pool that does not come back
+    (a forked worker lost) is terminated and the probe repeated once - a machinery matter, never an outcome."""
+    import multiprocessing
+    import pool_tv
+    for attempt in (0, 1):
+        try:
+            with warnings.catch_warnings():
+                warnings.simplefilter('ignore')
+                with pool_tv.time_limit(150):
+                    fn()
+            return 0
+        except pool_tv.PoolTimeout:
+            for ch in multiprocessing.active_children():
+                ch.terminate()
+            if attempt:
+                raise
+        except ValueError:
+            return 1
+        except Exception:
+            return 2
 
 
 def list_of(ls):
@@ -78,6 +89,20 @@ def shape_table(max_ext):
                             o3 = outcome(grp)
                         n_accept += o2 == 0
                         out['%d:%d:%d:%s:%s' % (ndim, n0, n1, ak, ls_key(ls))] = [o1, o2, o3]
+    # beyond the small extents (MC_Kwargs.BigArrays / BigLists): more than 2^8 signals along one axis
+    for ndim, n0, n1 in [(2, 257, 0), (2, 300, 0), (3, 257, 1), (3, 1, 300)]:
+        short = base_sig(1, n=96)
+        sigs = np.array([np.roll(short, i) for i in range(n0)]) if ndim == 2 else np.array([[np.roll(short, 7 * i + j) for j in range(n1)] for i in range(n0)])
+        b, c = max(n0, n1), max(n1, 1)
+        for ak, av in AXIS.items():
+            for ls in [(), (0,), (1, b), (1, b - 1), (1, 1), (2, n0, c), (2, c, n0)]:
+                kw = list_of(ls)
+                arr = np.array(kw) if isinstance(kw, list) else kw
+                o1 = outcome(lambda: check_kwargs_shape(sigs, arr, av))
+                f = compute_features_2d if ndim == 2 else compute_features_3d
+                o2 = outcome(lambda: f(sigs, fs, fr, compute_features_kwargs=copy.deepcopy(kw), axis=av, n_jobs=4))
+                n_accept += o2 == 0
+                out['%d:%d:%d:%s:%s' % (ndim, n0, n1, ak, ls_key(ls))] = [o1, o2, o2]
     return out, n_accept
 
 
@@ -132,6 +157,12 @@ def param_probes():
             lambda v=v: compute_features(sig, fs, fr, burst_method='amp', threshold_kwargs={'burst_fraction_threshold': .5, 'min_n_cycles': v}, burst_kwargs={}))
         add('min_n_cycles', 'min_n_cycles', 'compute_features(amp,burst_kwargs)', pos,
             lambda v=v: compute_features(sig, fs, fr, burst_method='amp', threshold_kwargs={'burst_fraction_threshold': .5}, burst_kwargs={'min_n_cycles': v}))
+        # the burst options' value is the effective one when both dictionaries give a minimum (documented: it overrides the thresholds' value)
+        add('min_n_cycles', 'min_n_cycles', 'compute_features(amp,burst_kwargs; thresholds give one too)', pos,
+            lambda v=v: compute_features(sig, fs, fr, burst_method='amp', threshold_kwargs={'burst_fraction_threshold': .5, 'min_n_cycles': 3}, burst_kwargs={'min_n_cycles': v}))
+        add('min_n_cycles', 'min_n_cycles', 'Bycycle.fit(amp,burst_kwargs; default thresholds)', pos,
+            lambda v=v: Bycycle(burst_method='amp', burst_kwargs={'min_n_cycles': v}).fit(sig, fs, fr))
+        add('min_n_cycles', 'min_n_cycles', 'Bycycle.fit(cycles,thresholds)', pos, lambda v=v: Bycycle(thresholds=dict(thr, min_n_cycles=v)).fit(sig, fs, fr))
     for pos, v in (('reversed', (2, 1)), ('equal', (1, 1)), ('ordered', (1, 2)), ('negative_low', (-1, 2))):
         add('amp_threshes', 'amp_threshes', 'compute_burst_fraction', pos, lambda v=v: compute_burst_fraction(df_s, sig, fs, fr, amp_threshes=v))
         add('amp_threshes', 'amp_threshes', 'compute_features', pos,
